@@ -12,8 +12,9 @@ class S_:
     pass
 
 
-def setup(T, NODE, CTX, variant, config=None):
+def setup(T, NODE, CTX, variant, config=None, prefix="C01"):
     S = S_()
+    S.prefix = prefix
     S.T, S.node, S.ctx, S.variant = T, NODE, CTX, variant
     if variant == "codec":
         enc = BasicEncoder(T)
@@ -39,14 +40,14 @@ def main(S, env):
     v = S.wrap(S.node.make(env))
     st, d = call(S.encode, v)
     if st == "exc":
-        return fail("C01/encode-raised:%s" % type(d).__name__, value=v, exc=d)
+        return fail(S.prefix + "/encode-raised:%s" % type(d).__name__, value=v, exc=d)
     st, v2 = call(S.decode, d)
     if st == "exc":
-        return fail("C01/decode-raised:%s" % type(v2).__name__, value=v, encoded=d, exc=v2)
+        return fail(S.prefix + "/decode-raised:%s" % type(v2).__name__, value=v, encoded=d, exc=v2)
     if not (v2 == v):
         return fail(classify_neq(S, v, v2), value=v, encoded=d, decoded=v2)
     if not same_classes(v, v2):
-        return fail("C01/class-mismatch", value=v, encoded=d, decoded=v2)
+        return fail(S.prefix + "/class-mismatch", value=v, encoded=d, decoded=v2)
     return True
 
 
@@ -75,7 +76,7 @@ def classify_neq(S, v, v2):
                     return find(x, y)
         return type(a).__name__
 
-    return "C01/roundtrip-neq:%s" % find(v, v2)
+    return S.prefix + "/roundtrip-neq:%s" % find(v, v2)
 
 
 def twin(S, env):
